@@ -10,6 +10,7 @@ type checkFn func(*Ctx) (string, []string)
 
 var registry = map[string]checkFn{
 	"C22": checkC22,
+	"C25": checkC25,
 	"C28": checkC28,
 	"C32": checkC32,
 	"C34": checkC34,
